@@ -625,40 +625,6 @@ __ywd_get_wcnt_mon(dt_ywd_t d)
 	return (x.d - 1) / 7 + 1;
 }
 
-static int
-__ywd_get_wcnt_year(dt_ywd_t d, unsigned int tgtcc)
-{
-	dt_dow_t j01;
-
-	if (tgtcc == YWD_ISOWK_CNT) {
-		return d.c;
-	}
-	/* otherwise we need to shift things */
-	j01 = __ywd_get_jan01_wday(d);
-	switch (tgtcc) {
-	case YWD_ABSWK_CNT:
-		if (d.w < j01) {
-			return d.c - 1;
-		} else if (d.hang < 0) {
-			return d.c + 1;
-		}
-		break;
-	case YWD_MONWK_CNT:
-		if (j01 >= DT_TUESDAY && j01 < DT_SUNDAY) {
-			return d.c - 1;
-		}
-		break;
-	case YWD_SUNWK_CNT:
-		if (j01 < DT_SUNDAY) {
-			return d.c - 1;
-		}
-		break;
-	default:
-		break;
-	}
-	return d.c;
-}
-
 static struct __md_s
 __ywd_get_md(dt_ywd_t d)
 {
@@ -677,8 +643,8 @@ __ywd_get_md(dt_ywd_t d)
 static unsigned int
 __ywd_get_mon(dt_ywd_t d)
 {
-	int yd = __ywd_get_yday(d);
-	return __yday_get_md(d.y, yd).m;
+	/* the days of the first and last week may belong to Dec and Jan */
+	return __ywd_get_md(d).m;
 }
 
 static unsigned int
